@@ -2,5 +2,7 @@
 pub mod alloc;
 pub mod choice;
 pub mod elfw;
+pub mod filegen;
 pub mod io;
+pub mod refs;
 pub mod run;
